@@ -1,3 +1,4 @@
 pub mod lexer;
 pub mod pos;
 pub mod pp;
+pub mod earley;
